@@ -345,9 +345,11 @@ CLAIMED = {
             "(normal form); float replay",
             "For every enumerated shape class (scalar / vector measurements, 1-3 parameters, 1-3 measurements of mixed shapes, "
             "2-copy shot vectors, zero / partially zero cotangents, tapes without trainable parameters, batches of 2-3 tapes with "
-            "both reductions) and ALL values: the results are exactly the contractions the property names (95 obligations).",
-            "Size-bounded in shapes (dimensions <= 3), complete in values; numpy interface; classical_jacobian, other "
-            "interfaces and gradient_fn itself are outside. F25 (batch_jvp reduction='extend' on scalar JVPs) open.",
+            "both reductions, concrete integer (one-hot) cotangents against a symbolic Jacobian) and ALL values: the results are "
+            "exactly the contractions the property names (116 obligations). classical_jacobian is covered only by a bounded "
+            "native stand-in on the autograd interface (argnum None / int / sequences; never counted as proved).",
+            "Size-bounded in shapes (dimensions <= 3), complete in values; numpy interface; classical_jacobian on other "
+            "interfaces, other interfaces of the vjp/jvp utilities and gradient_fn itself are outside. F25 (batch_jvp reduction='extend' on scalar JVPs) open.",
             "DESIGN.md 4 C39", "E2"),
     "C40": ("other",
             "sidecar contracts over the parameter-list view P on the real methods of core/qscript.py (par_info, trainable_params "
